@@ -254,12 +254,44 @@ func adversary(n int) {
 	p6.Put(&fb)
 }
 
+// arena lays the byte fields of all OCRA operations out as consecutive windows of ONE buffer, so that every field
+// has the other calls' data (and spare room) behind its length, as when an application slices its inputs out of a
+// batch or a network buffer. Expected values are computed from the same bytes; a callee that writes behind a field's
+// length changes a neighbour's input (a wrong result) and, under concurrency, races with the neighbour's reads.
+func arena(progs [][]c11Op) [][]c11Op {
+	total := 256
+	for _, prog := range progs {
+		for _, o := range prog {
+			total += len(o.In.C) + len(o.In.Q) + len(o.In.P) + len(o.In.S) + len(o.In.T)
+		}
+	}
+	buf := make([]byte, 0, total)
+	place := func(b []byte) []byte {
+		if b == nil {
+			return nil
+		}
+		off := len(buf)
+		buf = append(buf, b...)
+		return buf[off:len(buf):cap(buf)]
+	}
+	out := make([][]c11Op, len(progs))
+	for g, prog := range progs {
+		out[g] = make([]c11Op, len(prog))
+		for i, o := range prog {
+			o.In = ref.OCRAIn{C: place(o.In.C), Q: place(o.In.Q), P: place(o.In.P), S: place(o.In.S), T: place(o.In.T)}
+			out[g][i] = o
+		}
+	}
+	return out
+}
+
 type kept struct{ got, clone, what string }
 
 // (a) sequential histories with adversary and GC --------------------------------
 
 type c11SeqCase struct {
-	Ops []c11Op `json:"ops"`
+	Ops   []c11Op `json:"ops"`
+	Arena bool    `json:"arena,omitempty"` // OCRA byte fields are windows of one shared buffer
 }
 
 func checkC11Seq(c c11SeqCase) verdict {
@@ -267,7 +299,12 @@ func checkC11Seq(c c11SeqCase) verdict {
 	labels := []string{}
 	kinds := map[string]bool{}
 	hostile := false
-	for i, o := range c.Ops {
+	ops := c.Ops
+	if c.Arena {
+		ops = arena([][]c11Op{c.Ops})[0]
+		labels = append(labels, "arena")
+	}
+	for i, o := range ops {
 		kinds[o.Kind] = true
 		switch o.Kind {
 		case "gc":
@@ -300,7 +337,7 @@ func checkC11Seq(c c11SeqCase) verdict {
 }
 
 var c11Seq = newPart("C11", "sequential-adversary",
-	"rapid: sequential histories of 1..50 mixed calls (HOTP/TOTP/OCRA generation and validation, OCRA messages below and above the 256-byte pooled buffer, suite lookups, URL generation+parsing) and FAILING calls (undecodable secrets in four shapes, unsupported digits / hash, inadmissible OCRA inputs: an error and nothing else is expected, and later calls must be unaffected), interleaved with double garbage collections (emptying the pools and their victim caches) and an adversary that Gets buffers from both library pools through the verif hook, overwrites their full capacity, Puts them back and donates poisoned fresh buffers; invariant after every step: the result equals the reference value for the arguments alone, and every result string ever returned is still byte-identical to an independent copy; non-trivial = history with adversary or GC steps and >= 3 kinds of operation",
+	"rapid: sequential histories of 1..50 mixed calls (HOTP/TOTP/OCRA generation and validation, OCRA messages below and above the 256-byte pooled buffer, suite lookups, URL generation+parsing) and FAILING calls (undecodable secrets in four shapes, unsupported digits / hash, inadmissible OCRA inputs: an error and nothing else is expected, and later calls must be unaffected), in a third of the histories with all OCRA byte fields laid out as consecutive windows of one shared buffer (spare room and the other calls' data behind every field), interleaved with double garbage collections (emptying the pools and their victim caches) and an adversary that Gets buffers from both library pools through the verif hook, overwrites their full capacity, Puts them back and donates poisoned fresh buffers; invariant after every step: the result equals the reference value for the arguments alone, and every result string ever returned is still byte-identical to an independent copy; non-trivial = history with adversary or GC steps and >= 3 kinds of operation",
 	checkC11Seq)
 
 func drawC11Op(t *rapid.T, allowHostile bool) c11Op {
@@ -371,7 +408,7 @@ func spellVariant(t *rapid.T, name string) string {
 func TestC11_Sequential(t *testing.T) {
 	c11Seq.rapid(t, ev.Pick(1_500, 12_000), func(t *rapid.T) c11SeqCase {
 		n := rapid.IntRange(1, 50).Draw(t, "n")
-		var c c11SeqCase
+		c := c11SeqCase{Arena: rapid.IntRange(0, 2).Draw(t, "arena") == 0}
 		for i := 0; i < n; i++ {
 			c.Ops = append(c.Ops, drawC11Op(t, true))
 		}
@@ -387,6 +424,7 @@ type c11ConcCase struct {
 	Adversaries int       `json:"adversaries"`
 	GC          bool      `json:"gc"`
 	Rounds      int       `json:"rounds"`
+	Arena       bool      `json:"arena,omitempty"` // OCRA byte fields of all goroutines are windows of one shared buffer
 }
 
 var raceLog = os.Getenv("VERIF_RACELOG") // prefix given to GORACE=log_path
@@ -481,7 +519,11 @@ func checkC11Conc(c c11ConcCase) verdict {
 				}
 			}()
 		}
-		for g, prog := range c.Progs {
+		progs := c.Progs
+		if c.Arena {
+			progs = arena(c.Progs)
+		}
+		for g, prog := range progs {
 			wg.Add(1)
 			go func(g int, prog []c11Op) {
 				defer wg.Done()
@@ -524,6 +566,9 @@ func checkC11Conc(c c11ConcCase) verdict {
 	if c.GC {
 		labels = append(labels, "gc")
 	}
+	if c.Arena {
+		labels = append(labels, "arena")
+	}
 	nt := (len(c.Progs) >= 2 && len(kinds) >= 2) || c.Adversaries > 0 || c.GC
 	if firstErr != "" {
 		return bad(nt, labels, "%s", firstErr)
@@ -535,12 +580,13 @@ func checkC11Conc(c c11ConcCase) verdict {
 }
 
 var c11Conc = newPart("C11", "concurrent-race",
-	"rapid-drawn scripts (pure function of the seed): 1..64 goroutine programs of 1..12 mixed calls each (incl. failing calls; in half of the scripts all goroutines share one to three secrets), run for 1..3 rounds at GOMAXPROCS in {1,2,4,16} together with 0..2 adversary goroutines (Get/overwrite/Put on both library pools) and an optional GC goroutine, in a -race build; oracles: every result equals the sequential reference computed beforehand, retained result strings stay identical, and the race detector (GORACE log inspected after every script) reports nothing; non-trivial = >= 2 goroutines mixing >= 2 kinds of operation, or adversary/GC goroutines present; a failure stores the script itself, since the schedule cannot be replayed",
+	"rapid-drawn scripts (pure function of the seed): 1..64 goroutine programs of 1..12 mixed calls each (incl. failing calls; in half of the scripts all goroutines share one to three secrets), in a third of the scripts with all OCRA byte fields of all goroutines laid out as windows of one shared buffer, run for 1..3 rounds at GOMAXPROCS in {1,2,4,16} together with 0..2 adversary goroutines (Get/overwrite/Put on both library pools) and an optional GC goroutine, in a -race build; oracles: every result equals the sequential reference computed beforehand, retained result strings stay identical, and the race detector (GORACE log inspected after every script) reports nothing; non-trivial = >= 2 goroutines mixing >= 2 kinds of operation, or adversary/GC goroutines present; a failure stores the script itself, since the schedule cannot be replayed",
 	checkC11Conc)
 
 func TestC11_Concurrent(t *testing.T) {
 	c11Conc.rapid(t, ev.Pick(60, 1_200), func(t *rapid.T) c11ConcCase {
-		c := c11ConcCase{Procs: rapid.SampledFrom([]int{1, 2, 4, 16}).Draw(t, "procs"), Adversaries: rapid.IntRange(0, 2).Draw(t, "adv"), GC: rapid.Bool().Draw(t, "gc"), Rounds: rapid.IntRange(1, 3).Draw(t, "rounds")}
+		c := c11ConcCase{Procs: rapid.SampledFrom([]int{1, 2, 4, 16}).Draw(t, "procs"), Adversaries: rapid.IntRange(0, 2).Draw(t, "adv"), GC: rapid.Bool().Draw(t, "gc"), Rounds: rapid.IntRange(1, 3).Draw(t, "rounds"),
+			Arena: rapid.IntRange(0, 2).Draw(t, "arena") == 0}
 		n := rapid.SampledFrom([]int{1, 2, 3, 4, 8, 16, 32, 64}).Draw(t, "goroutines")
 		for g := 0; g < n; g++ {
 			m := rapid.IntRange(1, 12).Draw(t, "m")
